@@ -42,6 +42,12 @@ def run(rep, tier, seed, tr_errors):
     for ident in idents:
         for noise in ((rng.choice([0.02, 0.05]), rng.choice([0.2, 1.0])) if tier == "quick" else (0.02, 0.05, 0.2, 0.5, 1.0)):
             plan.append((ident, noise, rng.randint(1, 10 ** 6)))
+    # ladders written as circuit description codes (the quantifier's "random RC/RQ ladder circuits"), among them spectra dominated by
+    # their series resistance; calibrated on the unchanged tree: 24 runs gave 0.90 .. 1.37
+    for cdc_ in ("R{R=1000}(R{R=50}C{C=1e-5})", "R{R=500}(R{R=100}C{C=1e-5})(R{R=60}C{C=1e-3})"):
+        for noise in ((0.05, 0.2) if tier == "quick" else (0.05, 0.1, 0.2, 0.5)):
+            for _ in range(2 if tier == "quick" else 4):
+                plan.append((cdc_, noise, rng.randint(1, 10 ** 6)))
     ladders = 1 if tier == "quick" else 8
     stats = {"runs": 0, "ratios": [], "drift_factors": []}
 
@@ -69,7 +75,7 @@ def run(rep, tier, seed, tr_errors):
         n = len(r.get_frequencies())
         if abs(est - math.sqrt(5000 * r.pseudo_chisqr / n)) > 1e-9 * est:
             bad.append((desc, "estimated noise is not sqrt(5000 chi^2 / N)"))
-        if noise <= 0.05:
+        if noise <= 0.05 and ident.startswith("CIRCUIT_"):
             try:
                 ri = kk(pyimpspec.generate_mock_data(ident + "_INVALID", noise=noise, seed=sd)[0])
                 fac = float(ri.pseudo_chisqr / r.pseudo_chisqr)
